@@ -46,6 +46,8 @@ func runC14(c *Ctx, r *Report) {
 	r.Doc("R-C14.7", "every head stored by a merge is an entry of the result: the bounded merge recomputes its heads over the truncated list on every path (adopted from C02), and heads are the log's own entry objects (adopted from C06)")
 	r.Doc("R-C14.10", "while a method of the log holds the log's lock it calls no function value it was handed (the other log's Has as a filter inside headsAndEntries nests the two logs' locks, in opposite orders for merges in opposite directions)")
 	noCallerFunctionUnderTheLock(c, r, "R-C14.10")
+	r.Doc("R-C14.11", "the entry index and the predecessor index, which the writers edit in place, are used — also through a local loaded from the field — only while the log's lock is held (a copy taken after the unlock runs beside the insertions and can wedge on the map's own lock)")
+	liveIndexesAreReadUnderTheLock(c, r, "R-C14.11")
 	r.Doc("R-C14.8", "the access-controller callbacks run under the log's write lock and never take the log's lock themselves")
 	callbacksTakeNoLogLock(c, r, "R-C14.8")
 	importRules(c, r, "C02", []string{"R-C02.6", "R-C02.10"}, "R-C14.7")
